@@ -1071,3 +1071,44 @@ done:
     cJSON_Delete(patch);
     return rc;
 }
+
+/* C06: value sequence of a (possibly very long) array or object, read in one call: valueint of every child in forward order */
+long shim_array_ints(const cJSON *a, int *out, long cap)
+{
+    const cJSON *c;
+    long n = 0;
+    if (a == NULL)
+    {
+        return -1;
+    }
+    for (c = a->child; c != NULL; c = c->next)
+    {
+        if (n < cap)
+        {
+            out[n] = c->valueint;
+        }
+        n++;
+        if (n > cap + 8)
+        {
+            break;
+        }
+    }
+    return n;
+}
+
+/* every member of a big generated object is named "k<valueint>": returns the position of the first member for which that is not so, or -1 */
+long shim_members_named_by_value(const cJSON *o)
+{
+    const cJSON *c;
+    long n = 0;
+    char key[32];
+    for (c = o->child; c != NULL; c = c->next, n++)
+    {
+        snprintf(key, sizeof(key), "k%d", c->valueint);
+        if (c->string == NULL || strcmp(c->string, key) != 0)
+        {
+            return n;
+        }
+    }
+    return -1;
+}
